@@ -220,8 +220,9 @@ def conclude(pid, tier, seed, t0, proof, results, what, failures_fn=None, extra_
     if cone_diffs and rc == 0:
         fam, case, msg = cone_diffs[0]
         path = lib.write_replay(pid, "cone-%s" % lib.case_hash(case),
-                                {"property": pid, "kind": "correspondence-broken",
-                                 "correspondence": "a model in the cone of this property's theorems differs from the code: " + fam,
+                                {"property": pid, "kind": "correspondence-broken", "family": fam,
+                                 "correspondence": "a model in the cone of this property's theorems differs from the code: "
+                                                   + cone.NAMES.get(fam, fam),
                                  "first_difference": msg, "case": case, "cases_differing": len(cone_diffs)})
         lines.append("VIOLATION property=%s replay=%s no-failing-input-found" % (pid, path))
         rc = 1
